@@ -596,6 +596,13 @@ def write_evidence(pid, tier, seed, cfg, theorems, tables, checker_cmd, agg, bro
 
 def setup():
     t0 = time.time()
+    # regenerate every generated table first: modules import them
+    for name in sorted(os.listdir(os.path.join(VERIF, "checks"))):
+        if re.match(r"C\d+\.json$", name):
+            ok, _ = run_translators(load_cfg(name[:-5]), [])
+            if not ok:
+                print("translator failed for", name)
+                return 1
     with Lock("lake"):
         rc, out = sh(["lake", "build"], cwd=LEAN)
     print(out[-3000:])
@@ -609,7 +616,6 @@ def setup():
                 drivers.append(cfg["driver"])
             if cfg.get("harness_bin"):
                 bins += [cfg["harness_bin"]] + cfg.get("extra_bins", [])
-            run_translators(cfg, [])
     with Lock("lake"):
         rc, out = sh(["lake", "build"] + sorted(set(drivers)), cwd=LEAN)
     print(out[-3000:])
